@@ -152,11 +152,13 @@ CHECKS = {
         text="Theorems (Coq, all operands, all values): or_is_union / any_call_is_union / flatten_same_meaning (a | b and "
              "schema.any accept exactly the union; flattening keeps the meaning), add_spec + add_characterisation "
              "(d1 + d2 is the dict schema with d1's keys overridden and extended by d2's, Python's position rule "
-             "included; relaxed iff either is), make_required_spec (accepts exactly the values d accepts in which the "
+             "included; relaxed iff either is), add_assoc ((d1 + d2) + d3 and d1 + (d2 + d3) are the same schema, entry order "
+             "included, for key tables of any length), make_required_spec (accepts exactly the values d accepts in which the "
              "listed keys are present; undeclared key -> DeclarationError), alias_spec, getitem_spec / iter_spec / "
              "contains_spec, each with wf preservation so C02's theorem applies to the result. Tie: the real "
              "combinators' resulting schema / exception vs the model (exact, key order included); oracle on /repo: "
-             "verdicts of the combination vs verdicts of the parts / of an independently declared merged dict.",
+             "verdicts of the combination vs verdicts of the parts / of an independently declared merged dict; both groupings "
+             "of three random operands must be equal, print identically and iterate in the same order.",
         note=COMMON_NOTE + "Observation (not treated as a violation, DESIGN section 7): iterating a relaxed dict schema "
              "yields the `...` marker, which d[...] refuses (iter_all_subscriptable_refuted).",
         technique="Coq proof (conformance equivalences by induction on entry lists) + vm_compute correspondence + direct oracle",
